@@ -153,13 +153,24 @@ def obligations(tier, seed):
         for ks in itertools.product((0, 1, 2, 3), repeat=len(es)):
             if not thorough and len(es) == 3 and len(set(ks)) > 2:
                 continue
-            for layout in (("private",) if not thorough else ("private", "shared2")):
+            for layout in (("private", "shared1") if not thorough else ("private", "shared1", "shared2")):
                 spec = {"tasks": [{"w": "$w%d" % i} for i in range(T)], "edges": [[i, j, k] for (i, j), k in zip(es, ks)],
                         "teams": profiles.layout_workers(layout, T), "run": {"max_time": 10 if not thorough else 14}}
                 for pm in perms:
                     obs.append({"name": "order/%s/edges=%s/perm=%s" % (layout, ",".join("%d%s%d" % (i, profiles.KN[k], j) for (i, j), k in zip(es, ks)), "".join(map(str, pm))),
                                 "harness": "order", "cube": {"spec": spec, "perm": list(pm)}, "params": [["w%d" % i, 0, wmax] for i in range(T)],
                                 "timeout": 600 if thorough else 120, "engine": "zsym"})
+    # product members (components whose tasks wait for predecessors): repeated simulate and permuted component/task order
+    for kind in ("F1", "F2", "N1"):
+        for ob in profiles.p_product(kind, thorough, H=10):
+            if "/fs" not in ob["name"]:
+                continue
+            nT = len(ob["cube"]["spec"]["tasks"])
+            for pm in ([list(reversed(range(nT)))] if not thorough else [list(reversed(range(nT))), list(range(1, nT)) + [0]]):
+                narrow = {"cap0": (1, 2), "cap1": (1, 2), "fs0": (1, 2), "fs1": (1, 1), "z1": (1, 1)}
+                pr = [[n, max(lo, narrow[n][0]), min(hi, narrow[n][1])] if n in narrow else [n, lo, hi] for n, lo, hi in ob["params"]]
+                obs.append({"name": "order/" + ob["name"] + "/perm=" + "".join(map(str, pm)), "harness": "order", "cube": {"spec": ob["cube"]["spec"], "perm": pm},
+                            "params": pr, "timeout": 600 if thorough else 120, "engine": "zsym"})
     for op in ("insert", "insert-remove", "backward"):
         for k in (0, 2):
             spec = {"tasks": [{"w": "$w0"}, {"w": "$w1"}], "edges": [[0, 1, k]], "teams": profiles.layout_workers("private", 2), "run": {"max_time": 10}}
